@@ -144,6 +144,18 @@ pub const KF_CSHARP_ASYNC_INDIRECT: &str = "panic csharp crates/csharp/src/inter
 pub const KF_C_PARAM_NAMED_RESULT: &str = "panic c crates/c/src/lib.rs: called `Result::unwrap()` on an `Err` value: \"name `result` already defined\"";
 
 pub const KF_C_ITEM_NAMED_LIKE_WORLD: &str = "panic c crates/c/src/lib.rs: duplicate symbols: world item named like the world";
+pub const KF_RUST_ITEM_NAMED_LIKE_NAMESPACE: &str = "rust-compile-error: E0428 module of a named world item clashes with the module of a package namespace";
+pub const KF_RUST_TMP_SHADOWS_PARAM: &str = "rust-compile-error: a numbered generator temporary (`ptr0`, `<field><n>`) shadows a parameter of the same name";
+pub const KF_RUST_FLAGS_NAMED_LIKE_PRELUDE_CTOR: &str = "rust-compile-error: flags type named ok/err/some/none shadows the prelude constructor (bitflags tuple struct)";
+pub const KF_RUST_CASE_NAMED_SELF: &str = "rust-compile-error: variant/enum/flags case named `self` becomes the keyword `Self`";
+pub const KF_RUST_EXPORTED_RESOURCE_NAMED_T: &str = "rust-compile-error: exported resource named `t` clashes with the generic parameter `T`";
+pub const KF_RUST_BORROWED_DUPLICATE: &str = "rust-compile-error: --ownership=borrowing-duplicate-if-necessary refers to the wrong one of a duplicated type's Param/Result forms";
+pub const KF_RUST_RAW_STRINGS_PAYLOAD: &str = "rust-compile-error: E0119 --raw-strings with stream/future payloads string and list<u8> (both Vec<u8>)";
+pub const KF_RUST_PAYLOAD_IMPORT_EXPORT: &str = "rust-compile-error: E0277 future/stream payload impl missing for the exported copy of an interface that is also imported";
+pub const KF_RUST_HELPER_ITEM_NAMES: &str = "rust-compile-error: WIT name equal to a generated helper item or module (ret-area, params-lower, stub, exports, alloc, wit-future, wit-stream, wit-bindgen)";
+pub const KF_RUST_RESOURCE_FUNC_NAME: &str = "rust-compile-error: E0592 resource function named like a generated inherent method (handle, take-handle, from-handle, new)";
+pub const KF_RUST_BORROW_IMPORTED_IN_LIST: &str = "rust-compile-error: E0506 export parameter with borrow<imported resource> inside a list";
+pub const KF_RUST_BORROWING_ASYNC_IMPORT: &str = "rust-compile-error: E0726/E0106 async import parameter or future/stream payload of a type generated with a lifetime under --ownership=borrowing*";
 pub const KF_C_AUTODROP_IN_LIST: &str = "panic c crates/c/src/lib.rs: Unable to autodrop borrows in list/map values";
 
 /// `profile_for` minus the shapes of listed known findings.
@@ -163,6 +175,38 @@ pub fn profile_excluding_known(backend: &str, variant: &str, known: &[String]) -
         // borrows only at the top level of parameters would be fine, but the
         // generator has no finer knob: no borrows at all in this variant
         p.borrows = false;
+    }
+    if backend == "rust" && has(KF_RUST_ITEM_NAMED_LIKE_NAMESPACE) {
+        p.item_named_like_namespace = false;
+    }
+    if backend == "rust" && has(KF_RUST_TMP_SHADOWS_PARAM) {
+        p.param_like_tmp = false;
+        p.avoid_param_names.push("cleanup-list");
+    }
+    if backend == "rust" && has(KF_RUST_FLAGS_NAMED_LIKE_PRELUDE_CTOR) {
+        p.avoid_type_names.extend(["ok", "err", "some", "none"]);
+    }
+    if backend == "rust" && has(KF_RUST_EXPORTED_RESOURCE_NAMED_T) {
+        p.avoid_type_names.push("t");
+    }
+    if backend == "rust" && has(KF_RUST_CASE_NAMED_SELF) {
+        p.avoid_case_names.push("self");
+    }
+    if backend == "rust" && variant == "raw-strings" && has(KF_RUST_RAW_STRINGS_PAYLOAD) {
+        p.async_ = false;
+    }
+    if backend == "rust" && has(KF_RUST_PAYLOAD_IMPORT_EXPORT) {
+        p.payload_named_types = false;
+    }
+    if backend == "rust" && has(KF_RUST_RESOURCE_FUNC_NAME) {
+        p.avoid_resource_func_names.extend(["handle", "take-handle", "from-handle", "new"]);
+    }
+    if backend == "rust" && has(KF_RUST_BORROW_IMPORTED_IN_LIST) {
+        p.borrow_in_list = false;
+    }
+    if backend == "rust" && variant.starts_with("borrowed") && has(KF_RUST_BORROWING_ASYNC_IMPORT) {
+        p.async_funcs = false;
+        p.async_ = false;
     }
     if backend == "c" && has(KF_C_ITEM_NAMED_LIKE_WORLD) {
         p.item_named_like_world = false;
